@@ -27,6 +27,7 @@ func Run(o *drv.Out) {
 	CorpusStaleBlockHash(o, true)
 	CorpusLockedAtRootBoundary(o, 10)
 	CorpusLockedAtRootBoundary(o, 9)
+	CorpusLockSurvivesCommitteeChange(o)
 	nCases := 80
 	if o.Tier == "thorough" {
 		nCases = 500
@@ -141,6 +142,9 @@ func timedCase(o c01.Sink, rng *rand.Rand, tier string, k int) caseStats {
 	// its last commit), just below it, or zero — all legal
 	lrhu := []uint64{10, 10, 9, 0}[rng.Intn(4)]
 	cfg := bftsim.Config{N: n, Powers: powers, Byz: byz, Root0: 10, Salt: rng.Uint64() % 1_000_000, RealTimeouts: true, LastRootHeightUpdated: lrhu}
+	if rng.Intn(2) == 0 { // root height 11 lists the same committee in another order
+		cfg.CommitteeOrder = map[uint64][]int{11: rng.Perm(n)}
+	}
 	r := c01.NewRun(o, fmt.Sprintf("timed/%d/%s/n%d/byz%v", k, style, n, byz), cfg)
 	s := r.Sim()
 	t := &timed{r: r, s: s, o: o, rng: rng, style: style, delta: int64(20 + rng.Intn(200)),
